@@ -17,12 +17,23 @@
 //!          probe = for idx in 0..len+1 of the first word: (InsertEdits::get_edits, ReplaceEdits::get_edits)
 //!                  each () | (((string pos) ...)); -2 = ReplaceEdits on the empty word (not called)
 //!          chain = ((w' ex') ...), w' = real clusters of the returned word; (-777) = panic
+//!
+//! Second stream (first field 2): the chain inside corrupt_spelling through the public
+//! preprocessing(SpellingCorruption(Input, 1.0, false, Artificial(char_p, 2.0, Some(dict)))).
+//! input  = (2 (1 1 1 1) 0 0 itab rtab seed () trigrams words info charmode)
+//!          trigrams = ((prev cur next freq) ...) written to a dictionary file; itab/rtab = the tables
+//!          corrupt_spelling derives from them (re-derived here the same way, so the model gets them);
+//!          words = ASCII words of the text; info = ((char alphabetic punctuation) ...);
+//!          charmode 0: char_edit_prob 0 (one edit per word), 1: char_edit_prob 1 (len edits per word)
+//! output = words of the corrupted text | (-777)
 use rand::SeedableRng;
 use rand_chacha::ChaCha8Rng;
 use std::borrow::Cow;
 use std::collections::{HashMap, HashSet};
 use std::panic::{catch_unwind, AssertUnwindSafe};
 use text_utils::corrupt::{edit_word, DeleteEdits, EditsAndWeights, GetEdits, InsertEdits, ReplaceEdits, SwapEdits};
+use text_utils::data::preprocessing::{preprocessing, Part, PreprocessingFnConfig, SpellingCorruptionMode};
+use text_utils::data::{TextDataInfo, TrainData};
 use text_utils::unicode::{CharString, Character};
 use vh::*;
 
@@ -428,6 +439,206 @@ fn val_cfg(v: &Val) -> Option<(Cfg, String, Vec<usize>, usize)> {
     Some((Cfg { g, kinds, fd, pm, itab, rtab, seed }, w0, ex0, steps.len()))
 }
 
+
+// ------------------------------------------------------------------ corrupt_spelling stream
+#[derive(Clone, Debug)]
+struct E2e {
+    trigrams: Vec<(String, String, String, usize)>,
+    words: Vec<String>,
+    seed: u64,
+    charmode: bool,
+}
+
+/// the tables corrupt_spelling builds from the 3-gram dictionary (src/data/preprocessing.rs):
+/// insertions[(prev, next)] = all cur; replacements[(prev, cur, next)] = the other cur of (prev, next)
+fn e2e_tables(t: &[(String, String, String, usize)]) -> (Vec<(String, String, Edits)>, Vec<(String, String, String, Edits)>) {
+    let mut itab: Vec<(String, String, Edits)> = vec![];
+    for (p, c, n, _) in t {
+        match itab.iter_mut().find(|e| e.0 == *p && e.1 == *n) {
+            Some(e) => e.2.push((c.clone(), true)),
+            None => itab.push((p.clone(), n.clone(), vec![(c.clone(), true)])),
+        }
+    }
+    let mut rtab = vec![];
+    for (p, n, es) in &itab {
+        for (i, (c, _)) in es.iter().enumerate() {
+            let mut others = es.clone();
+            others.remove(i);
+            if !others.is_empty() {
+                rtab.push((p.clone(), c.clone(), n.clone(), others));
+            }
+        }
+    }
+    (itab, rtab)
+}
+
+fn e2e_info(e: &E2e, _cache: &mut Cache) -> Val {
+    let mut chars: Vec<String> = vec![];
+    for s in e.words.iter().chain(e.trigrams.iter().map(|t| &t.1)) {
+        for c in s.chars() {
+            let c = c.to_string();
+            if !chars.contains(&c) {
+                chars.push(c);
+            }
+        }
+    }
+    chars.sort();
+    Val::L(
+        chars
+            .iter()
+            .map(|c| {
+                let ch = Character { str: c };
+                Val::L(vec![Val::str(c), Val::b(ch.is_alphabetic()), Val::b(ch.is_punctuation())])
+            })
+            .collect(),
+    )
+}
+
+fn e2e_to_val(e: &E2e, cache: &mut Cache) -> Val {
+    let (itab, rtab) = e2e_tables(&e.trigrams);
+    let cfg = Cfg { g: false, kinds: [true; 4], fd: false, pm: 0, itab, rtab, seed: e.seed };
+    let mut l = match cfg_to_val(&cfg, vec![]) {
+        Val::L(l) => l,
+        _ => unreachable!(),
+    };
+    l[0] = Val::I(2);
+    l.push(Val::L(
+        e.trigrams
+            .iter()
+            .map(|(p, c, n, f)| Val::L(vec![Val::str(p), Val::str(c), Val::str(n), Val::u(*f)]))
+            .collect(),
+    ));
+    l.push(Val::L(e.words.iter().map(|w| Val::str(w)).collect()));
+    l.push(e2e_info(e, cache));
+    l.push(Val::b(e.charmode));
+    Val::L(l)
+}
+
+fn ok_token(s: &str, ctx: bool) -> bool {
+    (ctx && (s == "<bow>" || s == "<eow>"))
+        || (s.chars().count() == 1 && s.chars().all(|c| c.is_ascii_graphic()))
+}
+
+fn val_e2e(v: &Val) -> Option<E2e> {
+    let l = v.as_l()?;
+    if l.len() != 12 || l[0].as_i()? != 2 {
+        return None;
+    }
+    let seed = u64::try_from(l[6].as_i()?).ok()?;
+    let mut trigrams: Vec<(String, String, String, usize)> = vec![];
+    for t in l[8].as_l()? {
+        let (p, c, n) = (t.nth(0)?.to_string_lossy()?, t.nth(1)?.to_string_lossy()?, t.nth(2)?.to_string_lossy()?);
+        let f = t.nth(3)?.as_usize()?;
+        if !ok_token(&p, true) || !ok_token(&c, false) || !ok_token(&n, true) || f == 0 || f > 9 {
+            return None;
+        }
+        if !trigrams.iter().any(|x| x.0 == p && x.1 == c && x.2 == n) {
+            trigrams.push((p, c, n, f));
+        }
+    }
+    if trigrams.is_empty() || trigrams.len() > 40 {
+        return None; // Dictionary::load of an empty file gives freq_sum 0
+    }
+    let mut words = vec![];
+    for w in l[9].as_l()? {
+        let w = w.to_string_lossy()?;
+        if w.is_empty() || w.chars().count() > 4 || !w.chars().all(|c| c.is_ascii_graphic()) {
+            return None;
+        }
+        words.push(w);
+    }
+    if words.len() > 4 {
+        return None;
+    }
+    Some(E2e { trigrams, words, seed, charmode: l[11].as_bool()? })
+}
+
+fn run_e2e(e: &E2e) -> (Val, Vec<String>) {
+    let dir = format!("/tmp/C15/run-{}", std::process::id());
+    let _ = std::fs::create_dir_all(&dir);
+    let path = format!("{dir}/chars.tsv");
+    let body: String = e.trigrams.iter().map(|(p, c, n, f)| format!("{p} {c} {n}\t{f}\n")).collect();
+    let _ = std::fs::write(&path, body);
+    let text = e.words.join(" ");
+    let (seed, charmode, p2) = (e.seed, e.charmode, path.clone());
+    let res = catch_unwind(AssertUnwindSafe(move || {
+        let f = preprocessing(PreprocessingFnConfig::SpellingCorruption(
+            Part::Input,
+            1.0,
+            false,
+            SpellingCorruptionMode::Artificial(if charmode { 1.0 } else { 0.0 }, 2.0, Some(p2.into())),
+        ));
+        let info = TextDataInfo { seed, ..Default::default() };
+        f(TrainData::new(text, None), info).ok().map(|(d, _)| d.verif_input().to_string())
+    }));
+    let _ = std::fs::remove_file(&path);
+    let _ = std::fs::remove_dir(&dir);
+    let mut tags = vec!["e2e".to_string()];
+    let out = match res {
+        Ok(Some(t)) => {
+            let ws: Vec<&str> = if t.is_empty() { vec![] } else { t.split(' ').collect() };
+            if ws.iter().zip(e.words.iter()).any(|(a, b)| a != b) {
+                tags.push("e2e-changed".into());
+                if charmode && e.words.iter().any(|w| w.len() > 1) {
+                    tags.push("nt".into());
+                    tags.push("e2e-chain".into());
+                }
+            }
+            Val::L(ws.iter().map(|w| Val::str(w)).collect())
+        }
+        Ok(None) => Val::L(vec![Val::I(-776)]),
+        Err(_) => {
+            tags.push("panic".into());
+            Val::panic()
+        }
+    };
+    (out, tags)
+}
+
+const E2E_ALPHA: &[&str] = &["a", "b", "a", "b", "c", "0", ".", "-"];
+
+fn gen_e2e(rng: &mut Rng) -> E2e {
+    let nw = rng.range(1, 3);
+    let words: Vec<String> = (0..nw)
+        .map(|_| (0..rng.range(1, 3)).map(|_| *rng.pick(E2E_ALPHA)).collect::<String>())
+        .collect();
+    let mut trigrams: Vec<(String, String, String, usize)> = vec![];
+    let mut push = |p: String, c: String, n: String, f: usize| {
+        if !trigrams.iter().any(|x| x.0 == p && x.1 == c && x.2 == n) {
+            trigrams.push((p, c, n, f));
+        }
+    };
+    // contexts of the words themselves (insertion contexts (prev,next) and replacement contexts
+    // (prev,cur,next) with at least one alternative), then random ones
+    for w in &words {
+        let cs: Vec<String> = w.chars().map(|c| c.to_string()).collect();
+        let at = |i: isize| -> String {
+            if i < 0 {
+                "<bow>".into()
+            } else if i as usize >= cs.len() {
+                "<eow>".into()
+            } else {
+                cs[i as usize].clone()
+            }
+        };
+        for i in 0..=cs.len() as isize {
+            if rng.chance(1, 2) {
+                push(at(i - 1), rng.pick(E2E_ALPHA).to_string(), at(i), rng.range(1, 5));
+            }
+            if (i as usize) < cs.len() && rng.chance(1, 2) {
+                push(at(i - 1), at(i), at(i + 1), rng.range(1, 5));
+                push(at(i - 1), rng.pick(E2E_ALPHA).to_string(), at(i + 1), rng.range(1, 5));
+            }
+        }
+    }
+    for _ in 0..rng.range(1, 8) {
+        let p = if rng.chance(1, 4) { "<bow>".to_string() } else { rng.pick(E2E_ALPHA).to_string() };
+        let n = if rng.chance(1, 4) { "<eow>".to_string() } else { rng.pick(E2E_ALPHA).to_string() };
+        push(p, rng.pick(E2E_ALPHA).to_string(), n, rng.range(1, 5));
+    }
+    E2e { trigrams, words, seed: rng.below(1 << 30) as u64, charmode: rng.chance(2, 3) }
+}
+
 // ------------------------------------------------------------------ generators
 const ALPHA: &[&str] = &["a", "b", "a", "b", "c", "0", ".", "-", "ä"];
 const ALPHA_G: &[&str] = &["a", "b", "a", "b", "0", ".", "ä", "e\u{301}", "😀", "n\u{303}"];
@@ -589,6 +800,10 @@ struct C15 {
 
 impl Prop for C15 {
     fn gen(&mut self, rng: &mut Rng, _tier: Tier, _i: usize, _n: usize) -> Val {
+        if rng.chance(1, 8) {
+            let e = gen_e2e(rng);
+            return e2e_to_val(&e, &mut self.cache);
+        }
         let g = rng.chance(1, 2);
         let seam = g && rng.chance(1, 4);
         let w0 = gen_word(rng, g, seam);
@@ -662,6 +877,13 @@ impl Prop for C15 {
     }
 
     fn run(&mut self, input: &Val) -> Option<(Val, Vec<String>)> {
+        if input.nth(0).and_then(|x| x.as_i()) == Some(2) {
+            let e = val_e2e(input)?;
+            if e2e_to_val(&e, &mut self.cache) != *input {
+                return None;
+            }
+            return Some(run_e2e(&e));
+        }
         let (cfg, w0, ex0, k) = val_cfg(input)?;
         let d = derive(&cfg, &w0, &ex0, k, &mut self.cache);
         // the input must be the canonical one: tables as parsed, steps as derived from the real chain
@@ -672,6 +894,10 @@ impl Prop for C15 {
     }
 
     fn canon(&mut self, input: &Val) -> Option<Val> {
+        if input.nth(0).and_then(|x| x.as_i()) == Some(2) {
+            let e = val_e2e(input)?;
+            return Some(e2e_to_val(&e, &mut self.cache));
+        }
         let (cfg, w0, ex0, k) = val_cfg(input)?;
         let d = derive(&cfg, &w0, &ex0, k, &mut self.cache);
         Some(cfg_to_val(&cfg, d.steps))
@@ -682,6 +908,75 @@ impl Prop for C15 {
         // the context strings of the model
         if Val::str("<bow>").to_sexp() != "(60 98 111 119 62)" || Val::str("<eow>").to_sexp() != "(60 101 111 119 62)" {
             errs.push("bow/eow constants".into());
+        }
+        // Completeness probe: the per-case correspondence is a membership test, which an
+        // implementation that loses outcomes would still pass. For the three inputs whose complete
+        // outcome sets are pinned in C15_Props.v (outcomes_witness, outcomes_witness_2,
+        // outcomes_witness_3: c_ex / c_fd there) the set observed over 800 seeds must be exactly
+        // the model's set.
+        let e = |s: &str, p: bool| (s.to_string(), p);
+        let c_ex = Cfg {
+            g: false,
+            kinds: [true; 4],
+            fd: false,
+            pm: 0,
+            itab: vec![
+                ("<bow>".into(), "a".into(), vec![e("x", true), e("", true)]),
+                ("b".into(), "<eow>".into(), vec![e("yz", true), e("q", false)]),
+            ],
+            rtab: vec![
+                ("<bow>".into(), "a".into(), "b".into(), vec![e("q", true)]),
+                ("a".into(), "b".into(), "<eow>".into(), vec![e("", true)]),
+            ],
+            seed: 0,
+        };
+        let c_fd = Cfg { g: false, kinds: [false, true, false, true], fd: true, pm: 0, itab: vec![], rtab: vec![], seed: 0 };
+        type Golden<'a> = (&'a str, &'a Cfg, &'a str, Vec<usize>, Vec<(&'a str, Vec<usize>)>);
+        let goldens: Vec<Golden> = vec![
+            ("outcomes_witness", &c_ex, "ab", vec![1], vec![("xab", vec![0, 2]), ("ab", vec![1]), ("b", vec![0]), ("qb", vec![0, 1])]),
+            (
+                "outcomes_witness_2",
+                &c_ex,
+                "ab",
+                vec![],
+                vec![
+                    ("xab", vec![0]),
+                    ("ab", vec![]),
+                    ("abyz", vec![2, 3]),
+                    ("b", vec![]),
+                    ("a", vec![]),
+                    ("qb", vec![0]),
+                    ("ba", vec![0, 1]),
+                ],
+            ),
+            ("outcomes_witness_3", &c_fd, "a", vec![], vec![("", vec![]), ("a", vec![])]),
+        ];
+        for (name, cfg, w, ex, expect) in goldens {
+            let want: HashSet<(String, Vec<usize>)> = expect.into_iter().map(|(s, e)| (s.to_string(), e)).collect();
+            let mut seen: HashSet<(String, Vec<usize>)> = HashSet::new();
+            let mut broken = false;
+            for seed in 0..800u64 {
+                let mut c = cfg.clone();
+                c.seed = seed;
+                let d = derive(&c, w, &ex, 1, &mut self.cache);
+                match d.out.nth(1).and_then(|ch| ch.nth(0)).and_then(|st| Some((st.nth(0)?.clusters_to_string()?, st.nth(1)?.as_l()?.iter().filter_map(|x| x.as_usize()).collect::<Vec<_>>()))) {
+                    Some(o) => {
+                        seen.insert(o);
+                    }
+                    None => broken = true,
+                }
+            }
+            if broken {
+                errs.push(format!("completeness probe {name}: a call panicked"));
+            } else if seen != want {
+                let mut missing: Vec<_> = want.difference(&seen).cloned().collect();
+                let mut extra: Vec<_> = seen.difference(&want).cloned().collect();
+                missing.sort();
+                extra.sort();
+                errs.push(format!(
+                    "completeness probe {name}: observed outcome set differs from the pinned model set; never observed {missing:?}; not in the model {extra:?}"
+                ));
+            }
         }
         errs
     }
